@@ -36,6 +36,7 @@ const (
 	unit      = int64(10_000) // ugnot per spec unit = 100 bytes of storage at the default price (100 ugnot / byte)
 	bytesUnit = 100
 	mstart    = int64(40)
+	ostart    = int64(20)
 	tickSec   = int64(10)
 	gasWant   = int64(60_000_000)
 	boxBase   = 300 // bytes in a fresh box: all length prefixes stay two bytes wide between 128 and 16383
@@ -105,6 +106,9 @@ type run struct {
 	tag    string
 	beh    []mbt.Step
 	m      *key
+	o      *key // the session holder's own ordinary account
+	onum   uint64
+	oseq   uint64
 	s      map[string]*key
 	z      crypto.Address
 	mnum   uint64
@@ -285,6 +289,8 @@ func (w *world) buildStep(r *run, s mbt.Step) (std.Tx, func(ok, ante bool)) {
 			m := mbt.Step(x.(map[string]any))
 			amt := int64(m.Int("x")) * unit
 			switch m.Str("k") {
+			case "osend":
+				out = append(out, send(r.o.addr, r.z, amt))
 			case "send":
 				out = append(out, send(r.m.addr, r.z, amt))
 			case "pay":
@@ -319,6 +325,42 @@ func (w *world) buildStep(r *run, s mbt.Step) (std.Tx, func(ok, ante bool)) {
 		return tx, func(ok, ante bool) {
 			if ante {
 				r.sseq[sn]++
+			}
+			if ok {
+				r.size = size
+			}
+		}
+	case "MixedTx":
+		// two signers in order of first appearance: the ordinary account (own key) and the master (session key)
+		sn := s.Str("s")
+		msgs, size := msgsOf()
+		tx := std.Tx{Msgs: msgs, Fee: std.Fee{GasWanted: gasWant, GasFee: std.Coin{Denom: "ugnot", Amount: int64(s.Int("fee")) * unit}}}
+		oSigned := false
+		for _, a := range tx.GetSigners() {
+			var k *key
+			var num, seq uint64
+			var sa crypto.Address
+			if a == r.o.addr {
+				k, num, seq, oSigned = r.o, r.onum, r.oseq, true
+			} else {
+				k, num, seq, sa = r.s[sn], r.snum[sn], r.sseq[sn], r.s[sn].addr
+			}
+			sb, err := tx.GetSignBytes(appenv.ChainID, num, seq)
+			if err != nil {
+				panic(err)
+			}
+			sig, err := k.priv.Sign(sb)
+			if err != nil {
+				panic(err)
+			}
+			tx.Signatures = append(tx.Signatures, std.Signature{PubKey: k.pub, Signature: sig, SessionAddr: sa})
+		}
+		return tx, func(ok, ante bool) {
+			if ante {
+				r.sseq[sn]++
+				if oSigned {
+					r.oseq++
+				}
 			}
 			if ok {
 				r.size = size
@@ -399,7 +441,13 @@ func (w *world) project(r *run) map[string]any {
 			r.snum[sn] = u64(v, "account_number")
 		}
 	}
-	return map[string]any{"mbal": mb, "sess": ss}
+	var ob any
+	if b := w.e.Balance(r.o.addr); b%unit == 0 {
+		ob = b / unit
+	} else {
+		ob = fmt.Sprintf("%d ugnot (not a whole number of units)", b)
+	}
+	return map[string]any{"mbal": mb, "obal": ob, "sess": ss}
 }
 
 // ---------------------------------------------------------------- batch
@@ -411,7 +459,7 @@ type mism struct {
 
 func (w *world) newRun(idx int, beh []mbt.Step) *run {
 	p := fmt.Sprintf("c16-%s-%d-", w.tag, idx)
-	return &run{idx: idx, tag: w.tag, beh: beh, m: newKey(p + "m"), s: map[string]*key{"s1": newKey(p + "s1"), "s2": newKey(p + "s2")},
+	return &run{idx: idx, tag: w.tag, beh: beh, m: newKey(p + "m"), o: newKey(p + "o"), s: map[string]*key{"s1": newKey(p + "s1"), "s2": newKey(p + "s2")},
 		z: crypto.AddressFromPreimage([]byte(p + "z")), snum: map[string]uint64{}, sseq: map[string]uint64{}, size: boxBase + 1}
 }
 
@@ -420,11 +468,16 @@ func (w *world) setup(runs []*run) {
 	// funding
 	w.beginAt(t0)
 	for _, r := range runs {
-		tx := appenv.SignTx([]std.Msg{send(w.faucet.Addr, r.m.addr, (mstart+30)*unit)}, gasWant, 1, appenv.ChainID, w.faucet, w.fnum, w.fseq)
+		tx := appenv.SignTx([]std.Msg{send(w.faucet.Addr, r.m.addr, (mstart+30)*unit), send(w.faucet.Addr, r.o.addr, ostart*unit)}, gasWant, 1, appenv.ChainID, w.faucet, w.fnum, w.fseq)
 		w.fseq++
 		w.deliverOK(tx, "funding")
 	}
 	w.e.EndBlockCommit()
+	for _, r := range runs {
+		if v, ok := w.queryJSON("auth/accounts/" + r.o.addr.String()); ok {
+			r.onum, r.oseq = u64(v, "account_number"), u64(v, "sequence")
+		}
+	}
 	// the master creates its storage box and the sessions of the behaviour's Setup record (time = tick 0)
 	w.beginAt(t0)
 	for _, r := range runs {
